@@ -349,6 +349,35 @@ def rule_wqwake(ctx, rep):
     _wl.check_wakers(rep, "C09.wqwake", "cds", ctx.mod("cds", "perfn"), lambda name, ap: ap["base"] == ["a", 0] and not ap["steps"])
 
 
+def rule_floor(ctx, rep):
+    """T10 sibling agreement on the lower bound: every producer of a resize target that applies a floor (max(x, F)) and the
+    shrink executor (_do_cds_lfht_shrink clamps the size it shrinks to) use the *same* floor.  If the executor's floor is
+    higher than a producer's, a published target below it can never be reached: `while (size != resize_target)` spins (or the
+    `new_size < old_size` assertion fires) and everything queued behind the resize - including destroy - never runs."""
+    m = ctx.mod("cds", "perfn")
+    floors = {}
+    for name in ("resize_target_update_count", "cds_lfht_resize_lazy_count", "_do_cds_lfht_shrink"):
+        f = lfht.fn(ctx, name)
+        rep.touch(f)
+        fl_ = set()
+        for i in f.all_insts():
+            if i.op != "select":
+                continue
+            e = ir.expr(f, ["i", i.id], 4)
+            # max(x, F) == sel(x ugt F, x, F)
+            if e[1][0] == "icmp" and e[1][1] in ("ugt", "uge") and e[2] == e[1][2] and e[3] == e[1][3]:
+                fl_.add(ir.expr_str(e[3]))
+            elif e[1][0] == "icmp" and e[1][1] in ("ult", "ule") and e[3] == e[1][2] and e[2] == e[1][3]:
+                fl_.add(ir.expr_str(e[2]))
+        if not fl_:
+            raise Broken("%s: lower-bound clamp (max(x, floor)) not recognised" % name)
+        floors[name] = fl_
+    allf = set().union(*floors.values())
+    rep.check(len(allf) == 1, "C09.floor", "same-floor", "target producers and the shrink executor clamp to the same lower bound (%s)" % sorted(allf),
+              "lower bounds differ: %s - a target published below the executor's floor is unreachable, the resize loop never terminates" % dict((k, sorted(v)) for k, v in floors.items()),
+              ["%s: %s" % (k, sorted(v)) for k, v in floors.items()])
+
+
 RULES = [
     ("C09.pow2", rule_pow2),
     ("C09.size", rule_size),
@@ -358,5 +387,7 @@ RULES = [
     ("C09.chain", lambda c, r: lfht.rule_chain(c, r, "C09.chain")),
     ("C09.bucket", lambda c, r: lfht.rule_bucket(c, r, "C09.bucket")),
     ("C09.wqwake", rule_wqwake),
+    ("C09.floor", rule_floor),
+    ("C09.wqguard", lambda c, r: lfht.rule_wqguard(c, r, "C09.wqguard")),
 ]
 FLOORS = {"C09.pow2": 4}
